@@ -16,8 +16,11 @@ const lWindow = lLast - lFirst + 1
 // letters that only make sense after another letter of the same history (first, second): every
 // ordered pair of window positions i < j gets (first at i, second at j); and blocks of two transactions.
 var lDependentPairs = [][2]string{
-	{"rC2", "xC2"}, {"rC2", "uC2"}, {"rC2f", "uC2"}, {"cA", "iA"}, {"cK", "kK"}, {"vVC1", "tVX"}, {"xC1", "tXC1"}, {"iA0", "tA0"}, {"fA0", "tA0"}, {"s0", "xD0"},
+	{"rC2", "xC2"}, {"rC2", "uC2"}, {"rC2f", "uC2"}, {"cA", "iA"}, {"cA", "mA"}, {"cK", "kK"}, {"vVC1", "tVX"}, {"xC1", "tXC1"}, {"iA0", "tA0"}, {"iA0", "tUA0"}, {"fA0", "tA0"}, {"s0", "xD0"},
 }
+
+// letters that need two earlier ones: every ordered triple of window positions
+var lDependentTriples = [][3]string{{"cA", "iA", "tA"}, {"cA", "iA", "pA"}, {"rC2", "uC2", "xC2"}}
 
 var lTwoTxBlocks = []string{"rC2,xC2", "cA,iA", "cK,kK", "rC2f,tXC1", "xC1,xC3", "vVC1,tVX"}
 
@@ -59,6 +62,17 @@ func lHistories(thorough bool) [][]string {
 				h := lEmptyHist()
 				h[i], h[j] = p[0], p[1]
 				add(h)
+			}
+		}
+	}
+	for _, p := range lDependentTriples {
+		for i := 0; i < lWindow; i++ {
+			for j := i + 1; j < lWindow; j++ {
+				for k := j + 1; k < lWindow; k++ {
+					h := lEmptyHist()
+					h[i], h[j], h[k] = p[0], p[1], p[2]
+					add(h)
+				}
 			}
 		}
 	}
@@ -167,14 +181,6 @@ func replayLocal(cs lcase) int {
 		b := c.blocks[h]
 		fmt.Printf("  reference block %d (%s) mined by %s: %s, %d transactions, %d change logs\n", h, lHeightKind(uint32(h)), lrole(b.MinerAddress()), b.Hash().Prefix(), len(b.Txs), len(b.ChangeLogs))
 	}
-	// the plain stable-pointer paths first, so that the attribution is the one of the full run
-	if cs.Path.Kind != "stable-pointer" {
-		for d := 0; d <= lLast-lFirst; d++ {
-			p := pathLag(d)
-			p.Miner = cs.Path.Miner
-			lRunPath(c, p, core.NewResult(prop, "exploration"), false)
-		}
-	}
 	for _, l := range lRunPath(c, cs.Path, r, true) {
 		fmt.Println("  " + l)
 	}
@@ -200,12 +206,60 @@ func lRuleText() string {
 		ks = append(ks, fmt.Sprintf("%s x%d", k, v))
 	}
 	sort.Strings(ks)
-	pairs := "every dependent pair (" + fmt.Sprint(len(lDependentPairs)) + ") at every pair of heights"
+	pairs := fmt.Sprintf("every dependent pair (%d) at every pair of heights, every dependent triple (%d) at every triple of heights", len(lDependentPairs), len(lDependentTriples))
 	if th {
 		pairs += fmt.Sprintf(" and every ordered pair of a %d-letter alphabet at every pair of heights", len(lPairLetters))
 	}
 	return fmt.Sprintf("PHASE L (node-local state; 4 deputies, TermDuration=8, InterimDuration=2, real engine): histories = window heights 7..12 (snapshot-1, snapshot, snapshot+1, interim, reward block, reward+1) filled with block letters: the empty history, every letter of a %d-letter alphabet (+ %d two-transaction blocks) at every height, %s (%d histories); every block mined by DPoVP.MineBlock on a reference node (everything stable); per history %d node lives (%s): lags 0..5 of the stable pointer, batch confirms, restarts at every height (continuing unconfirmed / confirmed), restarts that lose unconfirmed blocks, sibling forks before / after every main block, a rejected twin before every block; each as a validator (InsertBlock from the wire) and as a miner (MineBlock with the same pool, key, clock); oracle at every main block: accepted, account data of touched + watched addresses identical to the reference node's, mined block identical to the reference block",
 		len(lLetterNames), len(lTwoTxBlocks), pairs, len(lHistories(th)), len(paths), strings.Join(ks, ", "))
+}
+
+// lMergeHeights: a failure class that shows at four or more of the six kinds of heights does not
+// depend on the height: its fingerprints are folded into one with height=any (first replay kept).
+func lMergeHeights(r *core.Result) {
+	key := func(fp string) (string, bool) {
+		i := strings.Index(fp, "/height=")
+		if i < 0 || !strings.Contains(fp, "/local/") {
+			return "", false
+		}
+		j := strings.Index(fp[i+1:], "/")
+		if j < 0 {
+			return "", false
+		}
+		return fp[:i] + "/height=any" + fp[i+1+j:], true
+	}
+	groups := map[string][]int{}
+	for i, v := range r.Violations {
+		if k, ok := key(v.Fingerprint); ok {
+			groups[k] = append(groups[k], i)
+		}
+	}
+	drop := map[int]bool{}
+	for k, idx := range groups {
+		if len(idx) < 4 {
+			continue
+		}
+		sort.Slice(idx, func(a, b int) bool { return r.Violations[idx[a]].Fingerprint < r.Violations[idx[b]].Fingerprint })
+		var kinds []string
+		for _, i := range idx {
+			fp := r.Violations[i].Fingerprint
+			h := fp[strings.Index(fp, "/height=")+8:]
+			kinds = append(kinds, h[:strings.Index(h, "/")])
+		}
+		first := idx[0]
+		r.Violations[first].Fingerprint = k
+		r.Violations[first].What = fmt.Sprintf("(seen at heights of kind %s) %s", strings.Join(kinds, ", "), r.Violations[first].What)
+		for _, i := range idx[1:] {
+			drop[i] = true
+		}
+	}
+	var keep []core.Violation
+	for i, v := range r.Violations {
+		if !drop[i] {
+			keep = append(keep, v)
+		}
+	}
+	r.Violations = keep
 }
 
 // lSelfCheck is the non-vacuity gate of phase L.
